@@ -142,10 +142,21 @@ def native_part(repo, rep):
     wrap = CFile(os.path.join(repo.root, WRAP_C), filt="specpart", need_python=True)
     # the pointer obtained from PyArray_DATA(specin) is only passed as first argument of partition()
     inptr = None
+    # the input array = the local whose address is handed to PyArg_ParseTuple
+    inarr = None
+    for n in wrap.walk(wrap.func("specpart")):
+        if n.get("kind") == "CallExpr":
+            t = ex(n)
+            if show(t[1]).startswith("PyArg_Parse"):
+                for a in t[2]:
+                    if a[0] == "un" and a[1] == "&" and a[2][0] == "var" and "Type" not in a[2][1] and inarr is None:
+                        inarr = a[2][1]
+    if inarr is None:
+        raise AnalysisError("wrapper: PyArg_ParseTuple(.., &<array>, ..) not found (idiom changed)")
     for n in wrap.walk(wrap.func("specpart")):
         if n.get("kind") == "BinaryOperator" and n.get("opcode") == "=":
             rhs = ex(n["inner"][1])
-            if rhs[0] == "call" and show(rhs[1]) == "PyArray_DATA" and rhs[2] and rhs[2][0] == ("var", "specin"):
+            if rhs[0] == "call" and show(rhs[1]) == "PyArray_DATA" and rhs[2] and rhs[2][0] == ("var", inarr):
                 inptr = ex(n["inner"][0])
     if inptr is None or inptr[0] != "var":
         raise AnalysisError("wrapper: assignment of PyArray_DATA(specin) not found (idiom changed)")
